@@ -222,6 +222,11 @@ theorem c03_gov_effect_history_partial (g : Genesis) (hw : g.wf = true) (bs : Li
     ∃ first steps, run genEnv g bs = some (first, steps, RunEnd.done) ∧ steps.length = bs.length ∧ EffectAll3 bs steps :=
   quiet_history3_gov_effect g hw bs hq
 
+/-- … and the RemoveValidator clause block by block (`EffectAll3R`) along every such history -/
+theorem c03_gov_remove_effect_history_partial (g : Genesis) (hw : g.wf = true) (bs : List Block) (hq : QuietHistory3 g bs) :
+    ∃ first steps, run genEnv g bs = some (first, steps, RunEnd.done) ∧ steps.length = bs.length ∧ EffectAll3R first.app bs steps :=
+  quiet_history3_gov_remove_effect g hw bs hq
+
 /- non-vacuity (kernel-checked): in the fourth block of the governance witness history `Q4` x/gov executes the proposal
    `[RemoveValidator(2), SetPower(3, 12 000 000)]` (result at position 5, after the five transactions of the block);
    after the block CometBFT holds 12 for key 3 and nothing for key 2 -/
